@@ -79,6 +79,8 @@ RowsSet ==
         Rows(Meta(FALSE, Cols2, None, None), <<NT("int"), NT("text")>>, << <<IV(0, <<1>>), Txt(<<97>>)>> >>),
         Rows(Meta(TRUE, Cols3, Some(<<1, 2, 3>>), None), T3, Rows3), Rows(Meta(TRUE, Cols3, Some(<< >>), None), T3, Rows3),
         Rows(Meta(TRUE, Cols3, None, Some(<<170, 187, 204>>)), T3, Rows3),
+        Rows(Meta(TRUE, Cols3, None, None), T3, Rows3) @@ [stale |-> TRUE],
+        Rows(Meta(FALSE, Cols2, Some(<<9>>), None), <<NT("int"), NT("text")>>, << <<IV(0, <<1>>), Txt(<<97>>)>> >>) @@ [stale |-> TRUE],
         Rows(NoMeta(3, None), T3, Rows3), Rows(NoMeta(3, Some(<<4>>)), T3, Rows3), Rows(Meta(FALSE, << >>, None, None), << >>, << >>)}
 
 \* features / cached metadata a description needs
@@ -86,7 +88,8 @@ FeatOf(d) == [rate_limit_error |-> IF d.k = "error" /\ d.code = 61440 THEN 61440
               lwt_mask |-> IF d.k = "prepared" /\ d.bind.lwt > 0 THEN d.bind.lwt ELSE -1,
               tablets |-> 0,
               metadata_id |-> IF (d.k = "rows" /\ d.meta.new_id.some = 1) \/ (d.k = "prepared" /\ d.result_metadata_id.some = 1) THEN 1 ELSE 0]
-CachedOf(d) == IF d.k = "rows" /\ d.meta.no_metadata THEN Cols3 ELSE << >>
+\* with "stale" a caller that asked to skip metadata (and holds OTHER columns) still gets the metadata the frame carries
+CachedOf(d) == IF d.k = "rows" /\ d.meta.no_metadata THEN Cols3 ELSE IF d.k = "rows" /\ "stale" \in DOMAIN d THEN Cols2 ELSE << >>
 
 Plain == [tracing |-> << >>, warnings |-> << >>, payload |-> None, stream |-> 1]
 Uuid16 == <<0, 17, 34, 51, 68, 85, 70, 119, 136, 153, 170, 187, 204, 221, 238, 255>>
@@ -135,8 +138,8 @@ Init ==
                ELSE IF segs[i].tag = "uvarlen" THEN {[segs EXCEPT ![i].b = nb] : nb \in {<<0>>, <<255, 255, 255, 255, 15>>, <<255, 255, 255, 255, 127>>, UVar(segs[i].n + 1), UVar(segs[i].n - 1)}}
                ELSE {}) :
         c = [kind |-> "mut", d |-> d, x |-> Plain, comp |-> cm, segs |-> m, at |-> i, tag |-> segs[i].tag]
-  \/ \E d \in {x \in Rep : x.k \in {"rows", "prepared"}} : LET segs == SFrame(d, Plain) IN \E i \in TypeIdAt(segs) : \E n \in {1, 30, 300} :
-        c = [kind |-> "deep", d |-> d, x |-> Plain, comp |-> "none", segs |-> Deepen(segs, i, n), at |-> Len(Bytes(SubSeq(segs, 1, i - 1))), depth |-> n, tag |-> "typeid"]
+  \/ \E d \in {x \in Rep : x.k \in {"rows", "prepared"}} : LET segs == SFrame(d, Plain) IN \E i \in TypeIdAt(segs) : \E n \in {1, 30, 300} : \E pat \in (IF n = 30 THEN {<<0, 32>>} ELSE DeepPats) :
+        c = [kind |-> "deep", d |-> d, x |-> Plain, comp |-> "none", segs |-> Deepen(segs, i, n, pat), at |-> Len(Bytes(SubSeq(segs, 1, i - 1))), depth |-> n, tag |-> "typeid", pat |-> pat]
   \/ \E d \in Rep : LET f == Bytes(SFrame(d, Plain)) IN \E n \in 0..(Len(f) - 1) :
         \/ c = [kind |-> "trunc", d |-> d, x |-> Plain, comp |-> "none", segs |-> Seg("raw", 0, SubSeq(f, 1, n)), at |-> n]
         \/ (n >= 9 /\ c = [kind |-> "trunc", d |-> d, x |-> Plain, comp |-> "none", at |-> n,       \* header length made consistent
@@ -145,5 +148,6 @@ Next == UNCHANGED c
 Spec == Init /\ [][Next]_c
 Emit == PrintT(<<"CASE", ToJson([kind |-> c.kind, d |-> c.d, x |-> c.x, comp |-> c.comp, feat |-> FeatOf(c.d), cached |-> CachedOf(c.d),
                                  frame |-> Bytes(c.segs), at |-> IF "at" \in DOMAIN c THEN c.at ELSE 0,
-                                 tag |-> IF "tag" \in DOMAIN c THEN c.tag ELSE "", depth |-> IF "depth" \in DOMAIN c THEN c.depth ELSE 0])>>)
+                                 tag |-> IF "tag" \in DOMAIN c THEN c.tag ELSE "", depth |-> IF "depth" \in DOMAIN c THEN c.depth ELSE 0,
+                                 pat |-> IF "pat" \in DOMAIN c THEN c.pat ELSE << >>])>>)
 =============================================================================
